@@ -440,6 +440,49 @@ pub(crate) mod verif_probe {
                            "databases": cp.databases.len()})
                 }))
             }
+            "reload_pools" => {
+                // config A: pools keep/change/gone ; config B: keep (identical), change (different), gone removed
+                let rt = tokio::runtime::Builder::new_multi_thread().worker_threads(2).enable_all().build().unwrap();
+                let v = v.clone();
+                Some(rt.block_on(async move {
+                    let tag = std::time::SystemTime::now().duration_since(std::time::UNIX_EPOCH).unwrap().as_nanos();
+                    let mk = |port: u16| {
+                        let mut pool = crate::config::Pool::default();
+                        pool.shards.clear();
+                        pool.shards.insert("0".to_string(), crate::config::Shard { database: "db".to_string(), mirrors: None,
+                            servers: vec![crate::config::ServerConfig { host: "127.0.0.1".to_string(), port, role: Role::Primary }] });
+                        let mut user = User::default();
+                        user.username = "u".to_string();
+                        user.password = Some("pw".to_string());
+                        pool.users.insert("0".to_string(), user);
+                        pool
+                    };
+                    let (keep, change, gone) = (format!("keep_{}", tag), format!("change_{}", tag), format!("gone_{}", tag));
+                    let mut a = crate::config::Config::default();
+                    a.general.validate_config = false;
+                    a.pools.insert(keep.clone(), mk(5432));
+                    a.pools.insert(change.clone(), mk(5432));
+                    a.pools.insert(gone.clone(), mk(5432));
+                    crate::config::verif_probe::set_config(a.clone());
+                    let csm: ClientServerMap = Arc::new(Mutex::new(HashMap::new()));
+                    if ConnectionPool::from_config(csm.clone()).await.is_err() { return json!({"error": "first from_config failed"}); }
+                    let keep_before = get_pool(&keep, "u").unwrap();
+                    let change_before = get_pool(&change, "u").unwrap();
+                    let remove_only = v.get("mode").and_then(|x| x.as_str()) == Some("remove_only");
+                    let mut b = a.clone();
+                    b.pools.remove(&gone);
+                    if !remove_only { b.pools.insert(change.clone(), mk(6543)); }
+                    crate::config::verif_probe::set_config(b);
+                    if ConnectionPool::from_config(csm).await.is_err() { return json!({"error": "second from_config failed"}); }
+                    let keep_after = get_pool(&keep, "u");
+                    let change_after = get_pool(&change, "u");
+                    json!({
+                        "removed_still_served": get_pool(&gone, "u").is_some(),
+                        "unchanged_reused": keep_after.map(|p| Arc::ptr_eq(&p.databases, &keep_before.databases)).unwrap_or(false),
+                        "changed_rebuilt": remove_only || change_after.map(|p| !Arc::ptr_eq(&p.databases, &change_before.databases) && p.addresses[0][0].port == 6543).unwrap_or(false),
+                    })
+                }))
+            }
             "pool_try_unban" => {
                 let (pool, addrs) = bare_pool(&v["roles"], v["ban_time"].as_i64().unwrap());
                 let now = chrono::offset::Utc::now().naive_utc();
